@@ -6,6 +6,7 @@ import (
 	"context"
 	"errors"
 	"fmt"
+	"io"
 	"os"
 	"sort"
 	"strings"
@@ -396,8 +397,10 @@ func runTuple(tb ev.TB, t tuple) (delivered bool, firstClass string) {
 	if t.Fault != "wrong-correlation" {
 		for _, ex := range a.cl.Journal() {
 			if ex.ConnID == connID && ex.Seq > seqBeforeNext {
-				ev.Fail(tb, "tuple", fmt.Sprintf("c11/wrote-after-transport-error/%s/%s", t.Op, t.Fault), t,
-					"after %s failed with %v (%s) the client sent another request (%s) on the same connection", t.Op, err1, t.Fault, ex.ApiName)
+				// The statement asks that every later operation fails, which it did; that the Conn still sent a request
+				// first (it is left open after a correlation-id mismatch) is recorded, not judged.
+				ev.Count("obs_request_written_after_framing_error", 1)
+				_ = ex
 				break
 			}
 		}
@@ -546,5 +549,112 @@ func TestTransportFaults(t *testing.T) {
 		ok, cls := runTuple(t, tp)
 		ev.Case(fmt.Sprintf("%+v", tp), ok, "fault_"+tp.Fault, "op_"+tp.Op, "first_"+cls)
 		ev.Sample(tp)
+	})
+}
+
+// ---------------------------------------------------------------------------
+// Concurrent use: one goroutine reads single messages (Conn.ReadMessage closes its batch before the fetch response was
+// read to its end, the rest has to be skipped), others run request/response operations on the same Conn.  The broker
+// injects nothing: no operation may fail with io.ErrNoProgress (a response header that belongs to no call in flight, i.e.
+// bytes of one response read as the start of another), and every answer must be the one a fresh Conn gives.
+
+type concCase struct {
+	Profile string `json:"profile"`
+	Readers int    `json:"readers"`
+	Others  int    `json:"others"`
+	Rounds  int    `json:"rounds"`
+	Other   string `json:"other"` // the operation the other goroutines repeat
+}
+
+func init() { ev.Register("conc", func(tb ev.TB, c concCase) { runConc(tb, c) }) }
+
+func runConc(tb ev.TB, c concCase) {
+	p := findProfile(c.Profile)
+	a := newEnv(tb, p)
+	defer a.cl.Close()
+	conn := a.dial(tb)
+	defer conn.Close()
+	conn.SetDeadline(time.Now().Add(8 * time.Second))
+	other := findOp(c.Other)
+	want, werr := other.Run(a, conn)
+	if werr != nil {
+		return // the operation needs state this unit does not set up
+	}
+	var wg sync.WaitGroup
+	var mu sync.Mutex
+	var bad string
+	report := func(s string) {
+		mu.Lock()
+		if bad == "" {
+			bad = s
+		}
+		mu.Unlock()
+	}
+	for i := 0; i < c.Readers; i++ {
+		wg.Add(1)
+		go func() {
+			defer wg.Done()
+			for r := 0; r < c.Rounds; r++ {
+				conn.Seek(0, kafka.SeekStart)
+				m, err := conn.ReadMessage(1 << 20)
+				if errors.Is(err, io.ErrNoProgress) {
+					report(fmt.Sprintf("ReadMessage failed with %v", err))
+					return
+				}
+				if err == nil && !(string(m.Value) == fmt.Sprintf("v%d", m.Offset) && m.Offset >= 0 && m.Offset <= 2) {
+					report(fmt.Sprintf("ReadMessage returned offset %d value %q, the log holds v0,v1,v2 at offsets 0..2", m.Offset, m.Value))
+					return
+				}
+			}
+		}()
+	}
+	for i := 0; i < c.Others; i++ {
+		wg.Add(1)
+		go func() {
+			defer wg.Done()
+			for r := 0; r < c.Rounds; r++ {
+				got, err := other.Run(a, conn)
+				if errors.Is(err, io.ErrNoProgress) {
+					report(fmt.Sprintf("%s failed with %v", c.Other, err))
+					return
+				}
+				if err == nil && got != want {
+					report(fmt.Sprintf("%s returned %q, alone on the Conn it returned %q", c.Other, got, want))
+					return
+				}
+			}
+		}()
+	}
+	done := make(chan struct{})
+	go func() { wg.Wait(); close(done) }()
+	select {
+	case <-done:
+	case <-time.After(30 * time.Second):
+		// calls that wait for a response whose header never matches spin without touching the network: the deadline of the
+		// Conn cannot end them, closing it does
+		conn.Close()
+		select {
+		case <-done:
+		case <-time.After(10 * time.Second):
+		}
+		report("some calls had not returned 30 s after the start although the Conn has a deadline of 8 s")
+	}
+	if bad != "" {
+		ev.Fail(tb, "conc", "c11/concurrent-misaligned/"+c.Other, c, "%d goroutines reading single messages and %d repeating %s on one Conn, nothing injected by the broker: %s", c.Readers, c.Others, c.Other, bad)
+	}
+}
+
+func TestConcurrentEarlyClose(t *testing.T) {
+	rapid.Check(t, func(t *rapid.T) {
+		c := concCase{
+			Profile: rapid.SampledFrom([]string{"low", "mid", "high"}).Draw(t, "profile"),
+			Readers: rapid.IntRange(1, 3).Draw(t, "readers"),
+			Others:  rapid.IntRange(1, 4).Draw(t, "others"),
+			Rounds:  rapid.SampledFrom([]int{20, 100, 300}).Draw(t, "rounds"),
+			Other:   rapid.SampledFrom([]string{"ReadLastOffset", "ReadFirstOffset", "ReadOffsets", "ReadPartitions", "Controller", "Brokers", "ApiVersions", "ListGroups", "FindCoordinator"}).Draw(t, "other"),
+		}
+		runConc(t, c)
+		ev.Case(fmt.Sprintf("conc %+v", c), true, "concurrent_early_close", "op_"+c.Other)
+		ev.Sample(c)
 	})
 }
